@@ -12,8 +12,9 @@ moment (so a frame's text is computed one step before it is written).  A schedul
 of choices: the main thread steps, the spinner steps, or the clock advances.  A choice that is
 not enabled (thread blocked in `join`, asleep, finished) is a no-op, so every list is a schedule.
 
-`step` follows the code as it is in the repository (one stream write per frame, repair of D23);
-`stepOld` is the pre-fix protocol (erase sequence and text are two writes).  The facts about the source
+`step` follows the code as it is in the repository (one stream write per frame, repair of D23; `except
+BaseException`, repair of D32); `stepOld` is the pre-fix write protocol (erase sequence and text are two
+writes), `stepOldExcept` the pre-fix exception handling (`except (Exception, KeyboardInterrupt)`).  The facts about the source
 that this file hard-codes (which exceptions `auto()` catches, the order of its exception path and of
 `finish()`, one write per frame, the strict throttle comparison) are regenerated into `Gen/C19.lean` on
 every run and pinned by `Props.C19.source_shape`.
@@ -34,8 +35,9 @@ inductive Seg where
   | message
   deriving DecidableEq, Repr
 
-/-- What a body can raise.  `auto()` catches `(Exception, KeyboardInterrupt)`; `systemExit`
-stands for every other `BaseException` (`SystemExit`, `GeneratorExit`). -/
+/-- What a body can raise.  `systemExit` stands for every `BaseException` that is neither an `Exception` nor
+`KeyboardInterrupt` (`SystemExit`, `GeneratorExit`).  The code as it is catches `BaseException` (repair of D32);
+before, `auto()` caught `(Exception, KeyboardInterrupt)` only. -/
 inductive ExcKind where
   | exception | keyboardInterrupt | systemExit
   deriving DecidableEq, Repr
@@ -58,12 +60,34 @@ inductive BodyOp where
   | exitBlock
   deriving DecidableEq, Repr
 
-/-- How the main thread left the `auto` block. -/
+/-- How the main thread left the `auto` block.  `raised k`: the body raised `k`, the `except` clause of
+`auto()` ran and re-raised it.  `escaped k`: the body raised `k` and no `except` clause of `auto()` matched
+(possible in the pre-fix variant only).  `error`: the protocol itself failed. -/
 inductive Outcome where
   | normal
   | raised (k : ExcKind)
+  | escaped (k : ExcKind)
   | error (e : Err)
   deriving DecidableEq, Repr
+
+/-- Which code is modelled: the repository as it is (`Proto.now`) or a pre-fix variant, kept for the proved
+counterexamples.  `twoWrites`: a frame is two stream writes (before the repair of D23).  `narrowExcept`:
+`auto()` catches `(Exception, KeyboardInterrupt)` only (before the repair of D32). -/
+structure Proto where
+  twoWrites : Bool
+  narrowExcept : Bool
+  deriving DecidableEq, Repr
+
+/-- the code as it is -/
+abbrev Proto.now : Proto := ⟨false, false⟩
+/-- before `fix: write a progress indicator frame with a single write` -/
+abbrev Proto.d23 : Proto := ⟨true, false⟩
+/-- before `fix: stop the progress indicator thread when the block is left by SystemExit` -/
+abbrev Proto.d32 : Proto := ⟨false, true⟩
+
+/-- does the `except` clause of `auto()` catch `k`? -/
+def caughtBy (p : Proto) (k : ExcKind) : Bool :=
+  if p.narrowExcept then (k == .exception || k == .keyboardInterrupt) else k.caught
 
 structure Cfg where
   ansi : Bool
@@ -93,8 +117,8 @@ def renderSeg (v m : Str) : Seg → Str
 def render (fmt : List Seg) (v m : Str) : Str := fmt.flatMap (renderSeg v m)
 
 /-- The stream writes of one `_overwrite(text)`. -/
-def frameWrites (old : Bool) (cfg : Cfg) (text : Str) : List Str :=
-  if cfg.ansi then (if old then [crEl, text] else [crEl ++ text]) else [text ++ nl]
+def frameWrites (old : Proto) (cfg : Cfg) (text : Str) : List Str :=
+  if cfg.ansi then (if old.twoWrites then [crEl, text] else [crEl ++ text]) else [text ++ nl]
 
 /-! ### Configurations -/
 
@@ -151,19 +175,19 @@ def frameText (cfg : Cfg) (c : St) : Str := render cfg.fmt (value cfg c.current)
 /-! ### The main thread -/
 
 /-- Local code of the main thread from the end of one body statement to its next visible operation. -/
-def nextBody (old : Bool) (cfg : Cfg) (c : St) : List BodyOp → St
+def nextBody (old : Proto) (cfg : Cfg) (c : St) : List BodyOp → St
   | .setMessage m :: rest =>
       let c1 := { c with message := m }
       { c1 with main := .writing (frameWrites old cfg (frameText cfg c1)) (.body rest) }
   | .work d :: rest => { c with main := .working (c.clock + d) rest }
   | .raise k :: _ =>
-      if k.caught then { c with main := .writing [nl] (.excSet k) }
-      else { c with main := .exited (.raised k) }
+      if caughtBy old k then { c with main := .writing [nl] (.excSet k) }
+      else { c with main := .exited (.escaped k) }
   | .exitBlock :: _ | [] =>
       -- finish(end_message, reset_indicator=True)
       if c.started then { c with main := .finSet } else { c with main := .exited (.error .runtimeError) }
 
-def contMain (old : Bool) (cfg : Cfg) (c : St) : MainK → St
+def contMain (old : Proto) (cfg : Cfg) (c : St) : MainK → St
   | .spawn => { c with main := .spawn }
   | .body rest => nextBody old cfg c rest
   | .excSet k => { c with main := .excSet k }
@@ -176,7 +200,7 @@ def enabledMain (c : St) : Bool :=
   | .excJoin _ | .finJoin => c.spin == .done || c.spin == .notStarted
   | _ => true
 
-def stepMain (old : Bool) (cfg : Cfg) (c : St) : St :=
+def stepMain (old : Proto) (cfg : Cfg) (c : St) : St :=
   match c.main with
   | .begin =>
       -- auto(): Event(), Thread(target=_spin); start(start_message) up to its stream write
@@ -216,7 +240,7 @@ def enabledSpin (c : St) : Bool :=
 
 def toSleep (cfg : Cfg) (c : St) : St := { c with spin := .sleeping (c.clock + cfg.period) }
 
-def stepSpin (old : Bool) (cfg : Cfg) (c : St) : St :=
+def stepSpin (old : Proto) (cfg : Cfg) (c : St) : St :=
   match c.spin with
   | .notStarted | .done => c
   | .begin => { c with spin := .test }
@@ -243,19 +267,22 @@ inductive Choice where
 
 abbrev Schedule := List Choice
 
-def stepG (old : Bool) (cfg : Cfg) (c : St) : Choice → St
+def stepG (old : Proto) (cfg : Cfg) (c : St) : Choice → St
   | .main => stepMain old cfg c
   | .spin => stepSpin old cfg c
   | .tick dt => { c with clock := c.clock + dt }
 
 /-- the code as it is (one write per frame) -/
-def step (cfg : Cfg) (c : St) (ch : Choice) : St := stepG false cfg c ch
-/-- the pre-fix protocol (erase and text are two writes) -/
-def stepOld (cfg : Cfg) (c : St) (ch : Choice) : St := stepG true cfg c ch
+def step (cfg : Cfg) (c : St) (ch : Choice) : St := stepG .now cfg c ch
+/-- the pre-fix write protocol (erase and text are two writes, D23) -/
+def stepOld (cfg : Cfg) (c : St) (ch : Choice) : St := stepG .d23 cfg c ch
+/-- the pre-fix exception handling (`except (Exception, KeyboardInterrupt)`, D32) -/
+def stepOldExcept (cfg : Cfg) (c : St) (ch : Choice) : St := stepG .d32 cfg c ch
 
-def runG (old : Bool) (cfg : Cfg) (s : Schedule) (c : St) : St := s.foldl (stepG old cfg) c
-def run (cfg : Cfg) (s : Schedule) (c : St) : St := runG false cfg s c
-def runOld (cfg : Cfg) (s : Schedule) (c : St) : St := runG true cfg s c
+def runG (old : Proto) (cfg : Cfg) (s : Schedule) (c : St) : St := s.foldl (stepG old cfg) c
+def run (cfg : Cfg) (s : Schedule) (c : St) : St := runG .now cfg s c
+def runOld (cfg : Cfg) (s : Schedule) (c : St) : St := runG .d23 cfg s c
+def runOldExcept (cfg : Cfg) (s : Schedule) (c : St) : St := runG .d32 cfg s c
 
 /-- the write trace in stream order -/
 def St.trace (c : St) : List (Tid × Str) := c.out.reverse
@@ -274,7 +301,7 @@ def nextWake (c : St) : Option Nat :=
   | [] => none
   | w :: r => some (r.foldl min w)
 
-def policy (old : Bool) (cfg : Cfg) : Nat → Nat → Tid → List Nat → St → Schedule
+def policy (old : Proto) (cfg : Cfg) : Nat → Nat → Tid → List Nat → St → Schedule
   | 0, _, _, _, _ => []
   | fuel + 1, k, cur, pre, c =>
     let em := enabledMain c
@@ -376,7 +403,7 @@ def mframe (cfg : Cfg) (c : MSt) : Str := render cfg.fmt (value cfg c.current) c
 
 /-- `_display()` on behalf of `kind` -/
 def mdisplay (cfg : Cfg) (kind : MKind) (c : MSt) : MSt :=
-  { c with out := (frameWrites false cfg (mframe cfg c)).reverse.map (fun b => ⟨kind, c.clock, b⟩) ++ c.out }
+  { c with out := (frameWrites .now cfg (mframe cfg c)).reverse.map (fun b => ⟨kind, c.clock, b⟩) ++ c.out }
 
 def mstep (cfg : Cfg) (c : MSt) : MOp → MSt × Option Err
   | .start m =>
